@@ -86,7 +86,7 @@ func main() {
 	// overall self-destruct so a client that never closes stdin cannot leave
 	// plugin processes behind
 	go func() {
-		time.Sleep(60 * time.Second)
+		time.Sleep(30 * time.Second)
 		tr.End = "self-timeout"
 		finish(4)
 	}()
